@@ -25,6 +25,85 @@ CLAIMED = {
         LISTING_NOTE,
         "DESIGN.md 3, 6/C01",
     ),
+    "C02": (
+        "model_checking",
+        "bounded exhaustive scenario enumeration plus explicit-state BFS over chains of rewrites on the evolving real IR (state = canonical abstraction of the IR), both against the listing-edit reference model",
+        "Label placements (start, at_end, several per block, patch-defined) x non-overlapping modification sets with emphasis on whole-block "
+        "deletions and every chain of them (with/without retarget_to_proxy) are applied with the real RewritingContext and every symbol's "
+        "resolved position is compared with the position of its label in the edited listing; a history explorer then chains single-"
+        "modification rewrites on the IR the previous rewrite left (abstracted back to a listing before each step), so later rewrites start "
+        "from split/joined/zero-sized leftovers. Complete for the stated bounds.",
+        LISTING_NOTE,
+        "DESIGN.md 3, 6/C02",
+    ),
+    "C03": (
+        "exploration",
+        "bounded exhaustive enumeration of (block ending x edit position x patch ending x follower x callers x function tables) products through the real RewritingContext, CFG flattened per instruction and compared with the control flow of the edited listing; plus chain BFS",
+        "Both the expected and the observed CFG are flattened to per-instruction edges (observed side decoded with capstone): fallthrough exactly "
+        "where the instruction can fall through and code follows, branch/call edges to the target label's position or proxy with the right flags, "
+        "return edges to the return sites of the calls into the function, no endpoint outside the module, no buried control transfer. "
+        "Known deviations are matched by cause roles computed from the request (K1/K2/RA..RG), never by property.",
+        LISTING_NOTE,
+        "DESIGN.md 3, 6/C03",
+    ),
+    "C04": (
+        "exploration",
+        "bounded exhaustive enumeration of annotation placements (every byte offset, block- and interval-keyed) x modification sets x expression-creating patches through the real RewritingContext against the listing-edit model",
+        "Comments, padding entries, symbolic expressions and their size entries are re-keyed to (section, position) and compared with the model; "
+        "expressions created by patches (existing code/data/external symbol, own label, addend, @PLT, PIE inference) must sit at patch position + "
+        "inner offset, refer by identity to the module's symbol, and no duplicate symbol names or out-of-range keys may exist.",
+        LISTING_NOTE,
+        "DESIGN.md 3, 6/C04",
+    ),
+    "C06": (
+        "exploration",
+        "bounded exhaustive enumeration of function layouts x modification sets x whole-function deletions through the real RewritingContext, per-instruction function attribution and table structure compared with the listing model; plus chain BFS",
+        "Per instruction tag the observed function (via functionBlocks/functionNames) must equal the model's (survivors keep theirs, patch code gets "
+        "the function of the block it was inserted into, data none); tables must be disjoint, entries a subset of blocks, key sets equal; entry "
+        "promotion only within the same function; vanished functions absent from all three tables.",
+        LISTING_NOTE,
+        "DESIGN.md 3, 6/C06",
+    ),
+    "C08": (
+        "exploration",
+        "bounded exhaustive enumeration of CFI-annotated modules x modification sets through the real RewritingContext; unwind state per instruction computed with an independent reference CFI interpreter before and after",
+        "The directive table before and after the rewrite is evaluated with vf/cfimodel.py (written from DWARF 6.4): clean evaluation is preserved, "
+        "startproc/endproc/remember/restore are neither lost nor duplicated (whole procedures without survivors may vanish), every surviving "
+        "instruction stays inside/outside a procedure, and without deletions the unwind state at every original and patch instruction equals "
+        "the state of the edited listing (state at the insertion point plus the patch's own directives). The library's evaluator must accept the result too.",
+        LISTING_NOTE,
+        "DESIGN.md 3, 6/C08",
+    ),
+    "C10": (
+        "exploration",
+        "exhaustive enumeration of small byte-interval layouts through split_byte_interval/join_byte_intervals, of every module shape through an empty apply(), and of aligned modules x single modifications",
+        "All intervals of size <= S with <= 3 blocks (zero-sized, overlapping, gaps) x initialized sizes x annotation offsets x alignment x nop sizes "
+        "x argument styles are split and re-joined: blocks keep bytes/addresses/annotations, groups get their own interval, a fully initialized "
+        "interval is restored exactly, otherwise only whole-nop/zero padding appears; an empty apply() must leave a canonical UUID-free dump of "
+        "every module shape used by the other checks unchanged; aligned blocks stay aligned after single modifications and the bytes differ from "
+        "the model only by padding in front of aligned blocks.",
+        LISTING_NOTE,
+        "DESIGN.md 6/C10",
+    ),
+    "C12": (
+        "exploration",
+        "bounded exhaustive enumeration of token sequences (5 dialects, ELF/PE, trivially_unreachable on/off) through the real Assembler against a declarative position-based reference model and capstone",
+        "Every token sequence up to the stated length over the vocabulary is assembled; capstone decoding, block tiling, per-kind edge sets, "
+        "label placement, data-block classification and symbolic expressions are compared with a reference model derived from the token list "
+        "(the token table itself is validated against capstone, never against the Assembler).",
+        "Trusted: capstone, mcasm/LLVM as instruction encoders. Behaviour on unsupported text is recorded, not judged.",
+        "DESIGN.md 6/C12",
+    ),
+    "C13": (
+        "exploration",
+        "bounded exhaustive enumeration of binding vocabularies, copy multisets through real rewrites, and every legal split of every short text into chunks, against identity/uniqueness/position oracles and a whole-vs-chunked differential",
+        "Binding: names resolve to the module's Symbol by identity, unknown names raise or create exactly one proxy symbol, redefinitions raise. "
+        "Copies: the same temp-label patch inserted at 1..4 sites (with prologue/epilogue chunks) yields unique names and each copy's branch and "
+        "expression target its own label (located by tagged instructions). Chunking: every (text, legal split) pair gives the same canonical "
+        "Assembler.Result as the whole text.",
+        "Trusted: mcasm/LLVM. Two chunking deviations outside the way RewritingContext drives the assembler are known findings.",
+        "DESIGN.md 6/C13",
+    ),
     "C14": (
         "exploration",
         "bounded exhaustive enumeration of operation/instruction classes x operand boundary vectors x byte orders x pointer sizes, all 256 opcodes in both spaces, concatenations, and constant windows, against an independent DWARF v4 codec",
